@@ -981,6 +981,7 @@ func (rc *raftNode) processReady(rd raft.Ready) {
 		atomic.StoreUint64(&rc.lead, rd.SoftState.Lead)
 	}
 
+	verifReady(isMeNewLeader, &rd)
 	rc.processReadStates(&rd)
 
 	raftDone := make(chan struct{}, 1)
@@ -1058,6 +1059,7 @@ func (rc *raftNode) processReady(rd raft.Ready) {
 	}
 	if isMeNewLeader {
 		rc.transport.Send(processedMsgs)
+		verifPoint("ready.sent.early")
 	}
 
 	start := time.Now()
